@@ -61,6 +61,33 @@ func ruleCondDirect(p *Program, r *Reporter) {
 			}
 		}
 	}
+	// … or has it emitted by a part that several cases share (the "condition,
+	// jump, guarded code" prologue): the case hands the parts to that function,
+	// which hands them to the compiler as it got them
+	jumpHelpers := map[*ssa.Function]bool{}
+	for f := range p.Reachable(fn) {
+		if f == fn || fnPkg(f) == nil || fnPkg(f).Pkg.Path() != Mod || isEmitHelper(p, a, f) {
+			continue
+		}
+		for _, b := range f.Blocks {
+			for _, ins := range b.Instrs {
+				if es, ok := emitAt(p, a, ins); ok && es.op == "OpJumpIfFalse" {
+					jumpHelpers[f] = true
+				}
+			}
+		}
+	}
+	for _, b := range fn.Blocks {
+		for _, ins := range b.Instrs {
+			if c, ok := ins.(*ssa.Call); ok && jumpHelpers[c.Call.StaticCallee()] {
+				if cl := outerCase(p, fn, c.Pos()); cl != "" {
+					if _, has := cond[cl]; !has {
+						cond[cl] = c.Pos()
+					}
+				}
+			}
+		}
+	}
 	if len(cond) == 0 {
 		r.Undecided("conditional constructs", p.Pos(fn.Pos()), "no compiler case emits OpJumpIfFalse")
 		return
@@ -68,6 +95,48 @@ func ruleCondDirect(p *Program, r *Reporter) {
 	bad := map[string]string{}
 	badPos := map[string]token.Pos{}
 	count := map[string]int{}
+	for _, b := range fn.Blocks {
+		for _, ins := range b.Instrs {
+			c, ok := ins.(*ssa.Call)
+			if !ok || !jumpHelpers[c.Call.StaticCallee()] {
+				continue
+			}
+			h := c.Call.StaticCallee()
+			cl := outerCase(p, fn, c.Pos())
+			if _, is := cond[cl]; !is {
+				continue
+			}
+			for i, prm := range h.Params {
+				if !isASTish(prm.Type()) || i >= len(c.Call.Args) {
+					continue
+				}
+				count[cl]++
+				if why := directPart(c.Call.Args[i], nodeParam, 0); why != "" && bad[cl] == "" {
+					bad[cl] = strings.TrimPrefix(callKey(p, fn, c), "call ") + ": " + why
+					badPos[cl] = c.Pos()
+				}
+				// inside the helper the part goes to the compiler as it came
+				for _, hb := range h.Blocks {
+					for _, hi := range hb.Instrs {
+						hc, ok := staticCalleeIs(hi, fn)
+						if !ok {
+							continue
+						}
+						okPart := false
+						for _, q := range h.Params {
+							if isASTish(q.Type()) && directPart(hc.Call.Args[1], q, 0) == "" {
+								okPart = true
+							}
+						}
+						if !okPart && bad[cl] == "" {
+							bad[cl] = strings.TrimPrefix(callKey(p, h, hc), "call ") + " (in " + h.Name() + "): what is compiled is not one of the parts the case handed over"
+							badPos[cl] = hc.Pos()
+						}
+					}
+				}
+			}
+		}
+	}
 	for _, b := range fn.Blocks {
 		for _, ins := range b.Instrs {
 			c, ok := staticCalleeIs(ins, fn)
@@ -152,11 +221,52 @@ func directPart(v ssa.Value, node ssa.Value, depth int) string {
 	return why
 }
 
+// sliceLiteralElems: v is a slice literal ([]T{a, b}): a fresh array sliced
+// whole; the values stored into its elements.
+func sliceLiteralElems(v ssa.Value) ([]ssa.Value, bool) {
+	sl, ok := v.(*ssa.Slice)
+	if !ok || sl.Low != nil || sl.High != nil {
+		return nil, false
+	}
+	al, ok := sl.X.(*ssa.Alloc)
+	if !ok || al.Referrers() == nil {
+		return nil, false
+	}
+	if _, isArr := deref(al.Type()).Underlying().(*types.Array); !isArr {
+		return nil, false
+	}
+	var out []ssa.Value
+	for _, ref := range *al.Referrers() {
+		switch r := ref.(type) {
+		case *ssa.IndexAddr:
+			for _, r2 := range *r.Referrers() {
+				st, ok := r2.(*ssa.Store)
+				if !ok || st.Addr != ssa.Value(r) {
+					return nil, false
+				}
+				out = append(out, st.Val)
+			}
+		case *ssa.Slice, *ssa.DebugRef:
+		default:
+			return nil, false
+		}
+	}
+	return out, len(out) > 0
+}
+
 func directPart0(v ssa.Value, node ssa.Value, depth int) string {
 	if depth > 12 {
 		return "selection chain too long"
 	}
 	if v == node {
+		return ""
+	}
+	if els, ok := sliceLiteralElems(v); ok {
+		for _, e := range els {
+			if why := directPart(e, node, depth+1); why != "" {
+				return why
+			}
+		}
 		return ""
 	}
 	switch x := v.(type) {
@@ -352,6 +462,14 @@ func strictPart(v ssa.Value, node ssa.Value, depth int) bool {
 func strictPart0(v ssa.Value, node ssa.Value, depth int) bool {
 	if depth > 12 || v == node {
 		return false
+	}
+	if els, ok := sliceLiteralElems(v); ok {
+		for _, e := range els {
+			if !strictPart(e, node, depth+1) {
+				return false
+			}
+		}
+		return true
 	}
 	switch x := v.(type) {
 	case *ssa.MakeInterface:
@@ -2938,12 +3056,6 @@ func ruleCounted(p *Program, r *Reporter) {
 	fn := a.compile
 	oc := p.Opcodes()
 	// loops of compile, by the field they range over
-	type loopInfo struct {
-		h       *ssa.BasicBlock
-		field   string
-		perIter int // compile calls that dominate every back edge
-		skips   bool
-	}
 	var loops []loopInfo
 	for _, h := range fn.Blocks {
 		var backs []*ssa.BasicBlock
@@ -3042,6 +3154,27 @@ func ruleCounted(p *Program, r *Reporter) {
 			for i := range loops {
 				if loops[i].field == fld && outerCase(p, fn, firstPos(loops[i].h)) == clause {
 					match = &loops[i]
+				}
+			}
+			if match == nil {
+				// the loop kept in a helper that is handed the list:
+				// `e.compileExpressions(node.Elements)`
+				for _, hb := range fn.Blocks {
+					for _, hi := range hb.Instrs {
+						hc, ok := hi.(*ssa.Call)
+						if !ok || hc.Call.StaticCallee() == nil || hc.Call.StaticCallee() == fn || outerCase(p, fn, hc.Pos()) != clause {
+							continue
+						}
+						for ai, arg := range hc.Call.Args {
+							if fieldKey(loadAddr(arg)) != fld || ai >= len(hc.Call.StaticCallee().Params) {
+								continue
+							}
+							if li, ok := listCompiler(hc.Call.StaticCallee(), hc.Call.StaticCallee().Params[ai], fn); ok {
+								li.field = fld
+								match = &li
+							}
+						}
+					}
 				}
 			}
 			switch {
@@ -3259,15 +3392,22 @@ func ruleEmitSet(p *Program, r *Reporter) {
 				if name == "" {
 					continue // selected through a table: R-OPMAP's subject
 				}
-				label := "(helper " + f.Name() + ")"
+				labels := []string{"(helper " + f.Name() + ")"}
 				if root, l := caseHome(p, f, c.Pos()); root == a.compile && l != "" {
 					// in the case itself, or in a function that case alone calls
-					label = strings.TrimPrefix(l, "case ")
+					labels = []string{strings.TrimPrefix(l, "case ")}
+				} else if ls := caseHomesOfShared(p, a, f, 0); len(ls) > 0 {
+					// a part shared by several cases (the "condition, jump, guarded
+					// code" prologue of if / ternary / while): what it emits, it
+					// emits for each of them
+					labels = ls
 				}
-				if got[label] == nil {
-					got[label] = map[string]token.Pos{}
+				for _, label := range labels {
+					if got[label] == nil {
+						got[label] = map[string]token.Pos{}
+					}
+					got[label][name] = c.Pos()
 				}
-				got[label][name] = c.Pos()
 			}
 		}
 	}
@@ -3374,4 +3514,119 @@ func stripIfaceConv(v ssa.Value) ssa.Value {
 			return v
 		}
 	}
+}
+
+type loopInfo struct {
+	h       *ssa.BasicBlock
+	field   string
+	perIter int // compile calls that dominate every back edge
+	skips   bool
+}
+
+// listCompiler: h walks the list it is handed in parameter prm from the first
+// element to the last and calls the compiler (compile) in every iteration; the
+// loop's figures.
+func listCompiler(h *ssa.Function, prm *ssa.Parameter, compile *ssa.Function) (loopInfo, bool) {
+	for _, hd := range h.Blocks {
+		var backs []*ssa.BasicBlock
+		for _, pd := range hd.Preds {
+			if hd.Dominates(pd) {
+				backs = append(backs, pd)
+			}
+		}
+		if len(backs) == 0 {
+			continue
+		}
+		iff, ok := terminator(hd).(*ssa.If)
+		if !ok {
+			continue
+		}
+		bo, ok := iff.Cond.(*ssa.BinOp)
+		if !ok {
+			continue
+		}
+		lc, ok := isBuiltinCall(bo.Y, "len")
+		if !ok || lc.Call.Args[0] != ssa.Value(prm) {
+			continue
+		}
+		inLoop := map[*ssa.BasicBlock]bool{hd: true}
+		work := append([]*ssa.BasicBlock{}, backs...)
+		for _, b := range backs {
+			inLoop[b] = true
+		}
+		for len(work) > 0 {
+			b := work[len(work)-1]
+			work = work[:len(work)-1]
+			for _, pd := range b.Preds {
+				if !inLoop[pd] && hd.Dominates(pd) {
+					inLoop[pd] = true
+					work = append(work, pd)
+				}
+			}
+		}
+		li := loopInfo{h: hd}
+		total := 0
+		for b := range inLoop {
+			for _, ins := range b.Instrs {
+				if c, ok := staticCalleeIs(ins, compile); ok {
+					total++
+					all := true
+					for _, bk := range backs {
+						if !(c.Block() == bk || c.Block().Dominates(bk)) {
+							all = false
+						}
+					}
+					if all {
+						li.perIter++
+					}
+				}
+			}
+		}
+		li.skips = total != li.perIter
+		if total > 0 {
+			return li, true
+		}
+	}
+	return loopInfo{}, false
+}
+
+// caseHomesOfShared: the cases of the compiler's type switch on whose behalf a
+// function works that several of them call: every static call of it sits in a
+// case (or in a function that has such homes itself); nil when some call does
+// not.
+func caseHomesOfShared(p *Program, a *anchors, f *ssa.Function, depth int) []string {
+	if depth > 3 || functionUsedAsValue(p, f) {
+		return nil
+	}
+	sites := staticCallSites(p, f)
+	if len(sites) == 0 {
+		return nil
+	}
+	set := map[string]bool{}
+	for _, site := range sites {
+		caller := site.Parent()
+		for caller != nil && caller.Parent() != nil {
+			caller = caller.Parent()
+		}
+		if caller == f {
+			continue // calls itself: the outer call decides
+		}
+		if root, l := caseHome(p, caller, site.Pos()); root == a.compile && l != "" {
+			set[strings.TrimPrefix(l, "case ")] = true
+			continue
+		}
+		sub := caseHomesOfShared(p, a, caller, depth+1)
+		if len(sub) == 0 {
+			return nil
+		}
+		for _, l := range sub {
+			set[l] = true
+		}
+	}
+	var out []string
+	for l := range set {
+		out = append(out, l)
+	}
+	sort.Strings(out)
+	return out
 }
